@@ -20,6 +20,7 @@ const (
 	KEnum
 	KInput
 	KScalar
+	KSplitValue // object not implementing Node whose fields are split disjointly over services (merge-only universes)
 )
 
 type Arg struct {
@@ -68,6 +69,8 @@ type Profile struct {
 	Directives    bool
 	Descriptions  bool
 	NodeLookalike float64 // probability of a root field shaped like node: lookup(id: ID!): Node
+	SplitValue    float64 // probability of a value type declared with disjoint field sets by two services (merge-only)
+	BareEntity    float64 // probability of an entity type that has no field besides id in any service
 	SpreadEnum    bool    // services declare different subsets of an enum's values (merge-only universes)
 }
 
@@ -351,6 +354,20 @@ func NewUniverse(r *rand.Rand, p Profile) *Universe {
 		}
 	}
 
+	if p.BareEntity > 0 && r.Float64() < p.BareEntity {
+		add(&TypeDef{Name: "Tag", Kind: KEntity})
+		ents = append(ents, "Tag")
+		refTargets = append(refTargets, "Tag", "Tag")
+	}
+	var splitRoots []*Field
+	if p.SplitValue > 0 && u.K >= 2 && r.Float64() < p.SplitValue {
+		a := r.Intn(u.K)
+		b := (a + 1 + r.Intn(u.K-1)) % u.K
+		add(&TypeDef{Name: "Dims", Kind: KSplitValue, Fields: []*Field{
+			{Name: "width", Type: "Int", Owner: a}, {Name: "height", Type: "Int", Owner: a}, {Name: "weight", Type: "Float", Owner: b},
+		}})
+		splitRoots = []*Field{{Name: "dimsA", Type: "Dims", Owner: a}, {Name: "dimsB", Type: "Dims", Owner: b}}
+	}
 	// roots
 	mkRoots := func(n int, names []string, used map[string]bool) []*Field {
 		var out []*Field
@@ -371,7 +388,7 @@ func NewUniverse(r *rand.Rand, p Profile) *Universe {
 		return out
 	}
 	qUsed := map[string]bool{"node": true}
-	u.Query = mkRoots(between(r, p.RootFields), rootNames, qUsed)
+	u.Query = append(mkRoots(between(r, p.RootFields), rootNames, qUsed), splitRoots...)
 	// every service owns at least one Query field
 	for s := 0; s < u.K; s++ {
 		has := false
@@ -396,6 +413,19 @@ func NewUniverse(r *rand.Rand, p Profile) *Universe {
 			names = append(names, rootNames...)
 		}
 		u.Mutation = mkRoots(1+r.Intn(4), names, mUsed)
+		if p.SharedRoots {
+			// the same root field (name and signature) on Query and Mutation, owned by different services
+			for i := 0; i < 2 && i < len(u.Query); i++ {
+				f := u.Query[r.Intn(len(u.Query))]
+				if mUsed[f.Name] || f.Name == "lookup" || BaseName(f.Type) == "Dims" {
+					continue
+				}
+				mUsed[f.Name] = true
+				c := *f
+				c.Owner = (f.Owner + 1) % u.K
+				u.Mutation = append(u.Mutation, &c)
+			}
+		}
 	}
 	if p.Subscriptions {
 		sUsed := map[string]bool{}
@@ -531,6 +561,12 @@ func (n *needSet) needType(name string) {
 		for _, f := range t.Fields {
 			n.needField(f)
 		}
+	case KSplitValue:
+		for _, f := range t.Fields {
+			if n.svc < 0 || f.Owner == n.svc {
+				n.needField(f)
+			}
+		}
 	case KInterface:
 		for _, m := range n.u.Types {
 			if contains(m.Impl, name) {
@@ -637,6 +673,14 @@ func (u *Universe) SDL(svc int) string {
 			fmt.Fprintf(&b, "%q\n", t.Descr)
 		}
 		switch t.Kind {
+		case KSplitValue:
+			b.WriteString("type " + t.Name + " {\n")
+			for _, f := range t.Fields {
+				if svc < 0 || f.Owner == svc {
+					b.WriteString(fieldSDL(f))
+				}
+			}
+			b.WriteString("}\n")
 		case KEntity, KValue:
 			impl := []string{}
 			for _, in := range t.Impl {
